@@ -105,7 +105,7 @@ HOSTS = ["example.com", "github.com", "files.pythonhosted.org", "h", "git.exampl
 USERS = ["git", "user", "u-1", "x.y", "build_bot"]
 SEGS = ["org", "repo", "a", "my-project", "Some.Repo", "x_y", "~user", "v2", "group", "sub.group", "123", "r"]
 REVS = ["main", "v1.0", "1.2.3", "feature/x", "abc1234", "0123456789abcdef0123456789abcdef01234567", "release-2.0", "dev_branch", "HEAD", "a"]
-SUBDIRS = ["sub", "pkg/core", "a_b", "src/my-pkg", "x/y/z", "p", "my.pkg", "src/lib.core"]   # with dots: regression of 99e1c95
+SUBDIRS = ["sub", "pkg/core", "a_b", "src/my-pkg", "x/y/z", "p", "my.pkg", "src/lib.core", ".tools/pkg", ".hidden", "a/.b/c"]   # with dots: regression of 99e1c95
 DOT_SUBDIRS = ["my.pkg", "src/lib.core", "v1.2/pkg"]
 
 
@@ -176,7 +176,7 @@ def dep_desc(rnd: random.Random) -> dict[str, Any]:
     if rnd.random() < 0.2:
         d["python"] = rnd.choice(PY_RANGES)
     # membership in extras the way Factory records it (`dependency._in_extras = [...]`), for markers without `extra`
-    d["in_extras"] = rnd.sample(["a", "b", "foo-bar", "c"], rnd.choice([1, 1, 2])) if "extra" not in d["marker"] and rnd.random() < 0.25 else []
+    d["in_extras"] = rnd.sample(["a", "b", "foo-bar", "c"], rnd.choice([1, 1, 2])) if not G.mentions_extra(d["marker"]) and rnd.random() < 0.25 else []
     if k < 0.45:
         d["kind"] = "registry"
         d["constraint"] = constraint(rnd, poetry_ops=True) or "*"
@@ -233,13 +233,13 @@ def siblings(rnd: random.Random, d: dict[str, Any], n: int = 4) -> list[dict[str
             v["text_constraint"] = constraint(rnd) if rnd.random() < 0.5 else d.get("text_constraint", "")
         elif k < 0.75:
             v["marker"] = marker(rnd)
-            v["in_extras"] = [] if "extra" in v["marker"] else d["in_extras"]
+            v["in_extras"] = [] if G.mentions_extra(v["marker"]) else d["in_extras"]
         elif k < 0.85:
             v["extras"] = extras(rnd)
         elif k < 0.93:
             v["python"] = rnd.choice(PY_RANGES + [None])
         else:
-            v["in_extras"] = rnd.sample(["a", "b", "foo-bar", "c"], rnd.choice([1, 2])) if "extra" not in d["marker"] else []
+            v["in_extras"] = rnd.sample(["a", "b", "foo-bar", "c"], rnd.choice([1, 2])) if not G.mentions_extra(d["marker"]) else []
         out.append(v)
     return out
 
